@@ -372,7 +372,7 @@ def c05(run):
     run.build_harness()
     race_bin = run.build_harness(race=True)
     run.fatal_race_is_violation = True
-    for d in ("SHAREDSLICE", "NOONCE", "SHAREDRENDER"):
+    for d in ("SHAREDSLICE", "NOONCE", "SHAREDRENDER", "SHAREDSRC"):
         run.tlc("Concurrent", cc_cfg(2, dev=[d], emit=False, view=True), name="CC_neg_" + d, expect_violation="ReadOnlyAfterSetup")
     # all interleavings of the model; the behaviours are emitted with their schedule of gate steps
     r = run.model_check("Concurrent", cc_cfg(2 if quick else 3), name="CC_gen", want_cases=True, heap="24g")
